@@ -1,12 +1,14 @@
 /-
   Line-protocol driver for the `ons` engine: one stateless step of `OLP.Ons.step` per line.
 
-  input :  ons <height> <version> <base> <perBlock> <tld,tld> <feePrice> <feeObs> <payer> <kind> <args…>
-               T <n> <name>… R <n> <rec>… B <n> <addr>=<amt>… P <pool>
+  input :  ons <height> <version> <base> <perBlock> <tld,tld> <feePrice> <minFee> <feeObs> <payer> <sigValid>
+               <chainCurrency> <cur,cur,…> <kind> <args…>
+               T <n> <name>… R <n> <rec>… B <n> <addr>/<cur>=<amt>… P <pool>
            feeObs = used gas (decimal) | go (gas overflow) | nf (charge not covered)
+           name   = dotted, `-` for the empty name
            rec    = name;owner;benef;creation;lastUpdate;expire;active;onSale;salePrice|~;urihex|-
            addr   = lower-case hex, `-` for the empty address
-  output:  ok|fail:<err> R <n> <rec>… B <n> <addr>=<amt>… P <pool>
+  output:  ok|fail:<err> R <n> <rec>… B <n> <addr>/<cur>=<amt>… P <pool>
 -/
 import OLP.Ons.Model
 
@@ -16,7 +18,7 @@ open OLP OLP.Ons
 def unDash (s : String) : String := if s == "-" then "" else s
 def dash (s : String) : String := if s.isEmpty then "-" else s
 
-def parseName (s : String) : Name := s.splitOn "."
+def parseName (s : String) : Name := if s == "-" then [""] else s.splitOn "."
 def showName (n : Name) : String := ".".intercalate n
 
 def parseBool (s : String) : Option Bool := if s == "1" then some true else if s == "0" then some false else none
@@ -41,12 +43,15 @@ def showRec (p : Name × Domain) : String :=
     toString d.expire, showBool d.active, showBool d.onSale,
     (match d.salePrice with | none => "~" | some x => toString x), dash d.uri]
 
-def parseBal (tok : String) : Option (Addr × Int) :=
+def parseBal (tok : String) : Option (Acct × Int) :=
   match tok.splitOn "=" with
-  | [a, v] => v.toInt?.map (fun i => (unDash a, i))
+  | [k, v] =>
+    match k.splitOn "/" with
+    | [a, c] => v.toInt?.map (fun i => ((unDash a, c), i))
+    | _ => none
   | _ => none
 
-def showBal (p : Addr × Int) : String := s!"{dash p.1}={p.2}"
+def showBal (p : Acct × Int) : String := s!"{dash p.1.1}/{p.1.2}={p.2}"
 
 def showErr : Err → String
   | .priceTooLow => "priceTooLow" | .exists_ => "exists" | .debit => "debit" | .badName => "badName"
@@ -55,29 +60,31 @@ def showErr : Err → String
   | .isSub => "isSub" | .expired => "expired" | .notForSale => "notForSale" | .offerTooLow => "offerTooLow"
   | .invalidAmount => "invalidAmount" | .inactive => "inactive" | .noBeneficiary => "noBeneficiary"
   | .feeGas => "feeGas" | .feeDebit => "feeDebit" | .crash => "crash"
+  | .vSigner => "vSigner" | .vSignature => "vSignature" | .vFee => "vFee" | .vMissing => "vMissing"
+  | .vBadName => "vBadName" | .vBadAmount => "vBadAmount"
 
 def parseTx : List String → Option (Tx × List String)
-  | "create" :: o :: b :: n :: u :: uo :: p :: rest => do
+  | "create" :: o :: b :: n :: u :: uo :: p :: c :: rest => do
     let uo ← parseBool uo
     let p ← p.toInt?
-    pure (.create (unDash o) (unDash b) (parseName n) (unDash u) uo p, rest)
+    pure (.create (unDash o) (unDash b) (parseName n) (unDash u) uo p c, rest)
   | "update" :: o :: b :: n :: a :: u :: uo :: rest => do
     let a ← parseBool a
     let uo ← parseBool uo
     pure (.update (unDash o) (unDash b) (parseName n) a (unDash u) uo, rest)
-  | "sale" :: o :: n :: p :: c :: rest => do
+  | "sale" :: o :: n :: p :: cu :: c :: rest => do
     let p ← p.toInt?
     let c ← parseBool c
-    pure (.sale (unDash o) (parseName n) p c, rest)
-  | "purchase" :: b :: a :: n :: o :: rest => do
+    pure (.sale (unDash o) (parseName n) p cu c, rest)
+  | "purchase" :: b :: a :: n :: o :: c :: rest => do
     let o ← o.toInt?
-    pure (.purchase (unDash b) (unDash a) (parseName n) o, rest)
-  | "send" :: f :: n :: a :: rest => do
+    pure (.purchase (unDash b) (unDash a) (parseName n) o c, rest)
+  | "send" :: f :: n :: a :: c :: rest => do
     let a ← a.toInt?
-    pure (.send (unDash f) (parseName n) a, rest)
-  | "renew" :: o :: n :: p :: rest => do
+    pure (.send (unDash f) (parseName n) a c, rest)
+  | "renew" :: o :: n :: p :: c :: rest => do
     let p ← p.toInt?
-    pure (.renew (unDash o) (parseName n) p, rest)
+    pure (.renew (unDash o) (parseName n) p c, rest)
   | "delsub" :: o :: n :: rest => pure (.deleteSub (unDash o) (parseName n), rest)
   | _ => none
 
@@ -95,15 +102,18 @@ def parseFee (s : String) : Option FeeObs :=
 
 def runLine (toks : List String) : Option String :=
   match toks with
-  | "ons" :: h :: v :: base :: pb :: tlds :: fp :: fo :: payer :: rest => do
+  | "ons" :: h :: v :: base :: pb :: tlds :: fp :: mf :: fo :: payer :: sv :: olt :: curs :: rest => do
     let h ← h.toInt?
     let v ← v.toInt?
     let base ← base.toInt?
     let pb ← pb.toInt?
     let fp ← fp.toInt?
     let fo ← parseFee fo
+    let mf ← mf.toInt?
+    let sv ← parseBool sv
     let env : Env := { height := h, version := v, opts := { base := base, perBlock := pb, tlds := (unDash tlds).splitOn "," },
-                       feePrice := fp, fee := fo, payer := unDash payer }
+                       feePrice := fp, fee := fo, payer := unDash payer, sigValid := sv, minFee := mf, olt := olt,
+                       currencies := (unDash curs).splitOn "," }
     let (tx, rest) ← parseTx rest
     let (tnames, rest) ← takeSection "T" rest
     let (rtoks, rest) ← takeSection "R" rest
